@@ -131,7 +131,7 @@ func clex(s string) ([]ctoken, error) {
 			toks = append(toks, ctoken{"int", strconv.Itoa(int(r))})
 			i = j + 1
 		default:
-			ops := []string{"<==>", "==>", "::", "==", "!=", "<=", ">=", "&&", "||", "++", "<", ">", "+", "-", "*", "/", "%", "!", "(", ")", "[", "]", ".", ",", ":", "?", "{", "}"}
+			ops := []string{"<==>", "==>", "::", "==", "!=", "<=", ">=", "&&", "||", "++", "<", ">", "+", "-", "*", "/", "%", "!", "&", "(", ")", "[", "]", ".", ",", ":", "?", "{", "}"}
 			found := false
 			for _, op := range ops {
 				if strings.HasPrefix(s[i:], op) {
@@ -367,7 +367,7 @@ func (p *cparser) mul() CExpr {
 }
 
 func (p *cparser) unary() CExpr {
-	if p.isOp("!") || p.isOp("-") || p.isOp("*") {
+	if p.isOp("!") || p.isOp("-") || p.isOp("*") || p.isOp("&") {
 		op := p.next().text
 		x := p.unary()
 		return &CUnary{op, x}
